@@ -3,10 +3,10 @@ from core import FuncSpec, CopySpec, EnumSpec, Harness
 R = 'include/jsoncons/json_reader.hpp'
 AL = {'ec': '(*ec_p)'}
 RULES = [
-    (r'source_\.is_error\(\)', 'vx_source_error', 1), (r'json_errc::(\w+)', r'json_errc_\1', 1, 3), (r'parser_\.reset\(\);', 'vx_exhausted = true;', 0, 1),
+    (r'source_\.is_error\(\)', 'vx_source_error', 0, 1), (r'json_errc::(\w+)', r'json_errc_\1', 0, 3), (r'parser_\.reset\(\);', 'vx_exhausted = true;', 0, 1),
     (r'parser_\.stopped\(\)', 'nondet_bool()', 0, 1), (r'parser_\.source_exhausted\(\)', 'vx_is_exhausted()', 1, 6),
     (r'auto s = source_\.read_chunk\(ec\);', 'struct vx_chunk s = vx_read_chunk(ec_p);', 1, 3), (r's\.size\(\)', 's.n', 1, 8), (r'parser_\.update\(s\.data\(\),\s*s\.n\);', 'vx_update(s.n);', 1, 3),
-    (r'parser_\.parse_some\(visitor_, ec\);', 'vx_parse_some(ec_p);', 0, 1), (r'parser_\.enter\(\)', 'nondet_bool()', 0, 1), (r'parser_\.accept\(\)', 'nondet_bool()', 0, 1),
+    (r'parser_\.parse_some\(visitor_?, ec\);', 'vx_parse_some(ec_p);', 0, 1), (r'parser_\.restart\(\);', '', 0, 1), (r'done_ = true;', 'vx_done = true;', 0, 1), (r'if \(JSONCONS_UNLIKELY\(ec\)\) \{return;\}', 'if (*ec_p) return;', 0, 4), (r'parser_\.enter\(\)', 'nondet_bool()', 0, 1), (r'parser_\.accept\(\)', 'nondet_bool()', 0, 1),
     (r'parser_\.skip_whitespace\(\);', 'vx_skip_ws();', 0, 2), (r'source_\.eof\(\)', 'vx_source_eof', 1, 2), (r'parser_\.check_done\(ec\);', 'vx_check_done(ec_p);', 0, 2),
     (r'while \(!eof\(\)\)', 'while (!(vx_is_exhausted() && vx_source_eof))', 0, 1),
 ]
@@ -14,16 +14,18 @@ INV = '!vx_mon_bad && !vx_pending && *ec_p == 0 && !vx_after_error'
 def loop(extra=''):
     return '__CPROVER_assigns(*ec_p, vx_exhausted, vx_pending, vx_source_eof, vx_mon_bad, vx_last_size, vx_reads, vx_updates, vx_parses, vx_checks, vx_after_error%s)\n  __CPROVER_loop_invariant(%s)' % (extra, INV)
 PRE = ('requires', '*ec_p == 0 && !vx_pending && !vx_mon_bad && !vx_after_error && vx_reads == 0 && vx_updates == 0 && vx_parses == 0 && vx_checks == 0')
-ASG = ('assigns', '*ec_p, vx_exhausted, vx_pending, vx_source_eof, vx_mon_bad, vx_last_size, vx_reads, vx_updates, vx_parses, vx_checks, vx_after_error')
+ASG = ('assigns', '*ec_p, vx_done, vx_exhausted, vx_pending, vx_source_eof, vx_mon_bad, vx_last_size, vx_reads, vx_updates, vx_parses, vx_checks, vx_after_error')
 POST = [('ensures', '[C03] hand-over discipline: no chunk that was read is left undelivered, none is delivered twice, nothing happens after an error', '!vx_mon_bad && !vx_pending'),
         ('ensures', '[C03][C05] an error of the source or of the parser is passed on unchanged; a source that is already in error is source_error', '(vx_source_error ==> *ec_p == json_errc_source_error) && (vx_after_error ==> *ec_p != 0)')]
 SPECS = [
     EnumSpec('json_errc', 'include/jsoncons/json_error.hpp'),
     FuncSpec('read_next', R, r'void read_next\(std::error_code& ec\)', count=1, csig='void read_next(int* ec_p)', contract=[PRE, ASG] + POST, aliases=AL, rules=RULES, loops={0: loop(), 1: loop(), 'count': 2}),
+    FuncSpec('cursor_read_next', 'include/jsoncons/json_cursor.hpp', r'void read_next\(basic_json_visitor<CharT>& visitor, std::error_code& ec\)', count=1, csig='void cursor_read_next(int* ec_p)', contract=[PRE, ASG, POST[0], ('ensures', '[C03][C05] an error of the source or of the parser is passed on', 'vx_after_error ==> *ec_p != 0')], aliases=AL, rules=RULES, loops={0: loop(', vx_done'), 'count': 1}),
     FuncSpec('check_done', R, r'void check_done\(std::error_code& ec\)', count=1, csig='void check_done(int* ec_p)', contract=[PRE, ASG] + POST + [('ensures', '[C02] when the input is not at its end, the remaining input is read and checked for trailing content until the end', '(*ec_p == 0 && !vx_source_error) ==> (vx_source_eof && (vx_exhausted || vx_checks >= 1))')],
              aliases=AL, rules=RULES, loops={0: loop(), 'count': 1, 'do_while': True}),
 ]
 HARNESSES = [
     Harness('read_next', 'h_read_next', enforce='read_next', loop_contracts=True, method='LC', props=['C03', 'C02'], expect_classes={'loop_invariant_step': 2}, note='termination of the loops depends on the source reaching its end and is not proved'),
+    Harness('cursor_read_next', 'h_cursor_read_next', enforce='cursor_read_next', loop_contracts=True, method='LC', props=['C03'], expect_classes={'loop_invariant_step': 1}, note='basic_json_cursor::read_next, the same loop for pull parsing'),
     Harness('check_done', 'h_check_done', enforce='check_done', loop_contracts=True, method='LC', props=['C03', 'C02'], expect_classes={'loop_invariant_step': 1}),
 ]
